@@ -287,8 +287,8 @@ def check_C05(chk):
         stage_gen_vec(chk, bins, "int", "{1, 7, 31, 32, 33, 63, 64}", 2, 4)
         stage_gen_vec(chk, bins, "int", "{7, 33, 64}", 3, 3, label="d3")
         stage_gen_vec(chk, bins, "raw", "{}", 2, 3)
-        stage_gen_vec(chk, bins, "int", "{1, 7, 31, 32, 33, 63, 64}", 40, 6, simulate="num=4000", label="sim")
-        stage_gen_vec(chk, bins, "raw", "{}", 40, 5, simulate="num=4000", label="sim")
+        stage_gen_vec(chk, bins, "int", "{1, 7, 31, 32, 33, 63, 64}", 40, 6, simulate="num=500", label="sim")    # TLC prints every successor of every simulated state: about 60 behaviours per run
+        stage_gen_vec(chk, bins, "raw", "{}", 40, 5, simulate="num=500", label="sim")
     else:
         stage_gen_vec(chk, bins, "int", "{1, 7, 33, 64}", 2, 4)
         stage_gen_vec(chk, bins, "raw", "{}", 2, 3)
